@@ -13,7 +13,7 @@ SPEC = {
         "handshake_n2n", "handshake_n2c", "chainsync_headers", "chainsync_blocks", "chainsync_skipped", "blockfetch",
         "txsubmission", "keepalive", "peersharing_n1", "peersharing_n2", "txmonitor", "localstate", "localtxsubmission_envelope", "localtxsubmission_partial",
         "localmsgsubmission", "localmsgnotification", "leiosnotify", "leiosfetch", "declared_len_matches",
-        "labels_match_sources", "translator_no_unknowns", "translator_found_all", "okAny_ok",
+        "labels_match_sources", "translator_no_unknowns", "translator_found_all", "okAny_ok", "anycbor_invalid_utf8_is_rejected",
     ],
     "translators": [_labels],
     "streams": [{"name": "msgs", "quick": 1200, "thorough": 60000}],
@@ -32,8 +32,8 @@ SPEC = {
     ],
     "assumptions": [
         "message fields are within the ranges of their Rust types and in a representable combination (valid predicates of Model/NetMsg.lean)",
-        "opaque AnyCbor payloads are exactly one well-formed item; the theorem covers those without indefinite-length arrays/maps "
-        "(Decoder::skip proved exact on that fragment), the others are sampled by the stream",
+        "opaque AnyCbor payloads are exactly one well-formed item whose text strings are UTF-8 (Decoder::skip, on which AnyCbor::decode "
+        "relies, is proved exact on every such item, indefinite containers included, and rejects non-UTF-8 text)",
         "text fields are valid UTF-8 (Rust String); tx-monitor ResponseNextTx(None) is decoded from a buffer that ends with the message",
     ],
     "explanation": "WF + RT + declared lengths are Lean theorems over all message values (Props/C22.lean); the stream ties the model "
